@@ -1,10 +1,12 @@
 """Implementation side of C17.  stdin: one JSON case per line; stdout: one JSON result per line.
 
 case   : {"threads": [prog, ...], "schedule": [tid, ...]}
-prog   : ["skip"] | ["seq", p, q] | ["with", mgr, spec, body] | ["obs", q] | ["raise"] | ["try", p]
+prog   : ["skip"] | ["seq", p, q] | ["with", mgr, spec, body] | ["with", mgr, spec, body, "gen"] | ["obs", q] | ["raise"] | ["try", p]
+         (the "gen" form runs the block inside a generator that is closed after the body: the block is left through GeneratorExit)
 mgr    : "config" | "backend"                       (parallel_config / parallel_backend)
 spec   : dict, keys absent = argument left at its default:
          backend  : ["inst", kind, level|null, by_name] | ["invalid"]
+         inner    : int (inner_max_num_threads) ;  params : true (an extra **backend_params entry)
          n_jobs   : [v]   (wrapped: [null] is n_jobs=None)
          verbose, temp, mmap, prefer, require : int codes ; maxnb : ["none"] | ["int", z] | ["str", mant, unit_char]
 q      : ["parallel", args]  (args like spec)  | ["active", prefer|null, require|null] | ["config"]
@@ -115,6 +117,10 @@ def mk_kwargs(spec):
             kw["prefer"] = PREFER[v]
         elif k == "require":
             kw["require"] = REQUIRE[v]
+        elif k == "inner":
+            kw["inner_max_num_threads"] = v
+        elif k == "params":
+            kw["verif_backend_param"] = 1      # an extra **backend_params entry
         elif k == "maxnb":
             kw["max_nbytes"] = None if v[0] == "none" else (v[1] if v[0] == "int" else "%d%s" % (v[1], v[2]))
         else:
@@ -261,7 +267,7 @@ class Runner:
                 raise ValueError("observed call raised " + r["raise"])
             return
         if k == "with":
-            _, mgr, spec, body = p
+            mgr, spec, body = p[1], p[2], p[3]
             cls = parallel_config if mgr == "config" else parallel_backend
             kw = mk_kwargs(spec)
             if mgr == "backend":
@@ -279,19 +285,29 @@ class Runner:
                 rec["post"] = snapshot()
                 self.blocks.append(rec)
                 raise
-            try:
+            def block():
                 with cm:
                     rec["in"] = snapshot()
                     self.stack.insert(0, (mgr, spec))
                     try:
                         self.run(body)
                         rec["exit"] = "normal"
+                        if len(p) > 4:
+                            rec["exit"] = "generator-close"
+                            yield 1          # the generator is closed here: GeneratorExit leaves the with block
+                    except GeneratorExit:
+                        raise
                     except BaseException:
                         rec["exit"] = "exception"
                         raise
                     finally:
                         self.stack.pop(0)
                         self.sched.turn(self.tid)
+            try:
+                it = block()
+                for _ in it:
+                    it.close()
+                    break
             finally:
                 rec["post"] = snapshot()
                 self.blocks.append(rec)
@@ -324,7 +340,7 @@ def run_case_(c):
         try:
             try:
                 runners[t].run(c["threads"][t])
-            except (ProgExc, ValueError):
+            except (ProgExc, ValueError, AssertionError):
                 pass
             finals[t] = snapshot()
         except BaseException as e:  # harness-level
